@@ -78,6 +78,65 @@ def single_step(chk, impls):
 
 
 
+def suspect_slots(chk):
+    """Closures whose generated Lean text differs from the committed (clean-tree) version -> the
+    dispatch slots that call them; dispatch rows that changed are suspects too.  Used for the
+    directed search after a broken proof / correspondence."""
+    import os, re, subprocess
+    from framework import LEAN_DIR, VERIF
+    slots = {}
+    hit = set()
+    for fn in ('SimHandlers.lean', 'CmioHandlers.lean'):
+        rel = os.path.join('lean', 'SkoolVerif', 'Gen', fn)
+        try:
+            new = open(os.path.join(VERIF, rel)).read()
+            old = subprocess.run(['git', '-C', VERIF, 'show', 'HEAD:' + rel], capture_output=True, text=True).stdout
+        except OSError:
+            continue
+        def defs(text):
+            d = {}
+            for m in re.finditer(r'^@\[sim_handler\] def (\w+)(.*?)(?=^@\[sim_handler\] def |^inductive )', text, re.S | re.M):
+                d[m.group(1)] = m.group(2)
+            return d
+        a, b = defs(old), defs(new)
+        hit |= {n for n in b if a.get(n) != b[n]}
+        def rows(text):
+            r = {}
+            for m in re.finditer(r'def tbl_(\w+) : Array Instr := #\[(.*?)\n\]', text, re.S):
+                r[m.group(1)] = [l.strip().rstrip(',') for l in m.group(2).strip().split('\n')]
+            return r
+        ra, rb = rows(old), rows(new)
+        for tbl, lines in rb.items():
+            for op, line in enumerate(lines):
+                mm = re.match(r'\.(\w+)', line)
+                if (mm and mm.group(1) in hit) or (tbl in ra and op < len(ra[tbl]) and ra[tbl][op] != line):
+                    slots[(tbl, op)] = line
+    if slots:
+        chk.note('directed search: closures whose translation changed vs the committed tree: ' + (', '.join(sorted(hit)) or '(dispatch rows only)')
+                 + f'; {len(slots)} slots')
+    return sorted(slots)
+
+
+def directed_states(rng, tbl, op, n):
+    """States for a suspect slot: every combination of boundary values for the operand bytes, plus
+    boundary-biased random states."""
+    import itertools
+    B = (0x00, 0x01, 0x3F, 0x40, 0x7F, 0x80, 0xBF, 0xC0, 0xFE, 0xFF)
+    count = 0
+    for o1, o2 in itertools.product(B, B):
+        regs, fields, mem, ins, tracers = simcorr.rand_state(rng, tbl, op, t_bias=t_bias)
+        pc = fields[0]
+        k0 = len(simcorr.PREFIXES[tbl]) + (0 if len(simcorr.PREFIXES[tbl]) == 2 else 1)
+        mem[(pc + k0) % 65536] = o1
+        mem[(pc + k0 + 1) % 65536] = o2
+        if len(simcorr.PREFIXES[tbl]) == 2:
+            mem[(pc + 2) % 65536] = o1
+        yield regs, fields, mem, ins, tracers
+        count += 1
+    for _ in range(n):
+        yield simcorr.rand_state(rng, tbl, op, t_bias=t_bias)
+
+
 def build_impls(chk):
     """The four real implementations, wrapped for single-step execution."""
     simulator, cmiosimulator = fresh_import('skoolkit.simulator', 'skoolkit.cmiosimulator')
